@@ -383,9 +383,12 @@ def run(chk):
                                        "Proof. exists %s, %s. vm_compute. split; reflexivity. Qed.\n" % (lname, plain_cj(w["input"]["a"]), plain_cj(w["input"]["b"]))))
             elif e["key"].startswith("gate:"):
                 gate_known = True
-                refuted.append((lname, "Lemma %s : exists docs, (exists d, In d docs /\\ schema_valid d = false) /\\ main_model probe_plugin docs [] <> (SError, []).\n"
-                                       "Proof. exists [%s]. split; [eexists; split; [left; reflexivity | vm_compute; reflexivity] | vm_compute; discriminate]. Qed.\n"
-                                       % (lname, "; ".join(plain_cj(x) for x in w["input"]["docs"]))))
+                wd = w["input"]["docs"]
+                names_w = ["%s_doc%d" % (lname, i) for i in range(len(wd))]
+                alts = " | ".join("(exists %s; split; [%sleft; reflexivity | vm_compute; reflexivity])" % (n, "right; " * i) for i, n in enumerate(names_w))
+                refuted.append((lname, "".join("Definition %s : json := %s.\n" % (n, plain_cj(x)) for n, x in zip(names_w, wd)) +
+                                "Lemma %s : exists docs, (exists d, In d docs /\\ schema_valid d = false) /\\ main_model probe_plugin docs [] <> (SError, []).\n"
+                                "Proof. exists [%s]. split; [first [%s] | vm_compute; discriminate]. Qed.\n" % (lname, "; ".join(names_w), alts)))
         chk.extra["known_findings_stale"] = stale
 
         # ---------------------------------------------------------------- 3. exclusions file, explain mode
@@ -406,14 +409,17 @@ def run(chk):
                                "Definition e_covers := Eval vm_compute in covers_explain model_py x_eqcls (sk_table model_py).\nPrint e_covers.\n"
                                "Definition e_tables := Eval vm_compute in tables_ok model_py.\nPrint e_tables.\n"
                                "Definition e_merge := Eval vm_compute in t_merge model_py.\nPrint e_merge.\n"
-                               "Definition e_order := Eval vm_compute in order_ok main_effects.\nPrint e_order.\n")
+                               "Definition e_order := Eval vm_compute in order_ok main_effects.\nPrint e_order.\n"
+                               "Definition e_mergeok := Eval vm_compute in (let dl := match find_cls model_py (t_root model_py) with Some C => map f_name (filter (fun f => match f_conv f with KList _ => true | _ => false end) (c_fields C)) | None => [] end in nodupb (t_merge model_py) && seteq (t_merge model_py) dl && negb (is_nil_b dl)).\nPrint e_mergeok.\n"
+                               "Definition e_root := Eval vm_compute in in_cp cpairs \"MetaModel\" (CClass (t_root model_py)).\nPrint e_root.\n")
             ok, res = V.compile_chain([gen["C18X"], ex_v])
             if not ok:
                 failed.append(("coqc", "C18Explain.v", res[-1][1].text[-1500:]))
             else:
                 out = res[-1][1].out
                 expl["compat"], expl["eq"], expl["covers"] = parse_why(out, "e_compat"), parse_why(out, "e_eq"), parse_why(out, "e_covers")
-                expl["flags"] = {"tables_ok": parse_val(out, "e_tables"), "merge": parse_val(out, "e_merge"), "order_ok": parse_val(out, "e_order")}
+                expl["flags"] = {"tables_ok": parse_val(out, "e_tables"), "merge": parse_val(out, "e_merge"), "order_ok": parse_val(out, "e_order"),
+                                 "merge_ok": parse_val(out, "e_mergeok"), "root_pair": parse_val(out, "e_root")}
             chk.extra["explain"] = {k: [list(x) for x in v] if isinstance(v, list) else v for k, v in expl.items()}
 
             # ------------------------------------------------------------ 4. the property file
@@ -441,10 +447,35 @@ def run(chk):
                         mm = re.match(r"\s*(?:Theorem|Lemma|Example)\s+([A-Za-z0-9_']+)", lines[i])
                         if mm:
                             bad = mm.group(1); break
-                seen_bad = False
+                fl = expl["flags"]
+                inst = {"compat_current": not expl["compat"], "root_pair_current": fl.get("root_pair") == "true", "tables_ok_current": fl.get("tables_ok") == "true",
+                        "eqs_ok_current": not expl["eq"], "eq_covers_current": not expl["covers"], "merge_fields_current": fl.get("merge_ok") == "true",
+                        "order_current": fl.get("order_ok") == "true", "gate_sound_current": gate_is_meta}
+                deps = {"C18_load_readback": ["compat_current", "root_pair_current"], "C18_merge_concat": ["merge_fields_current"],
+                        "C18_eq_total": ["tables_ok_current", "eqs_ok_current"], "C18_eq_refl_load": ["tables_ok_current", "eqs_ok_current"],
+                        "C18_eq_skeleton": ["tables_ok_current", "eqs_ok_current", "eq_covers_current"], "C18_gate_partial": ["order_current"],
+                        "C18_gate": ["order_current", "gate_sound_current"], "C18_example": list(inst)}
+                dead = {n for n in names if (n in inst and not inst[n]) or [d for d in deps.get(n, []) if not inst.get(d, True)]}
+                if bad:
+                    dead.add(bad)
+                    dead |= {n for n in names if bad in deps.get(n, [])}
+                # re-check what does not depend on a failing instance obligation: the same file without the dead lemmas
+                part = src
+                for n in dead:
+                    part = re.sub(r"(?:Lemma|Theorem|Example)\s+%s\b.*?(?:Qed|Defined)\.\n" % re.escape(n), "(* %s: removed, see evidence *)\n" % n, part, count=1, flags=re.S)
+                    part = re.sub(r"Print Assumptions %s\.\n" % re.escape(n), "", part)
+                pf = os.path.join(V.PROPS_OUT, "C18Partial.v")
+                V.write_if_changed(pf, part)
+                rp = V.coqc(pf)
                 for n in names:
-                    seen_bad = seen_bad or n == bad
-                    chk.obligation(n, not seen_bad, "" if not seen_bad else ("coqc failed here" if n == bad else "not reached"))
+                    if n in dead:
+                        broken = [d for d in deps.get(n, []) if not inst.get(d, True)]
+                        chk.obligation(n, False, ("instance obligation FAILS (explain mode)" if n in inst else "depends on failing " + ", ".join(broken)) if (n in inst and not inst[n]) or broken
+                                       else "coqc failed here")
+                    else:
+                        chk.obligation(n, rp.ok, "re-checked in C18Partial.v (the file without the failing obligations)" if rp.ok else "C18Partial.v does not compile: " + rp.text[-200:])
+                if rp.ok:
+                    chk.assumptions.append("C18Partial.v: %d theorems 'Closed under the global context'" % rp.out.count("Closed under the global context"))
                 failed.append(("proof", bad or "C18.v", r.text[-1200:]))
             if refuted and compiled:
                 rf = os.path.join(V.PROPS_OUT, "C18Refuted.v")
@@ -500,6 +531,7 @@ def run(chk):
         chk.sample({"stream": "loader", "label": docs[1][0], "doc": docs[1][1], "impl": {k: loads[1][k] for k in ("ok",)}})
 
         # oracle on the real code: every document valid under the pinned reading loads and reads back
+        loader_fail = []
         for (lab, d), l, v in zip(docs, loads, jsvr["MetaModel"]):
             if v and D.pinned_ok(d):
                 bad = (not l["ok"]) or not D.sim(l["readback"], d)
@@ -508,9 +540,17 @@ def run(chk):
                     key = ("loader:" + feat) if feat else "loader:doc:" + lab[:60]
                     if feat and lab.startswith("feature:") and feat not in D.TYPES:
                         key = "loader:feature:" + feat
+                    used = re.findall(r"add-feature:([\w.\-]+)", lab)
+                    if lab.startswith("random:") and any(("loader:" + u) in viol or ("loader:" + u) in known_keys for u in used):
+                        continue        # explained by a feature that already fails on its own
                     if key not in known_keys:
-                        add_violation(key, {"kind": "loader", "label": lab, "input": {"doc": d}, "expected": "loads; read-back ~ document",
-                                            "observed_impl": ("raises %s: %s" % (l["exc"], l["msg"][:200])) if not l["ok"] else "read-back differs from the document"})
+                        loader_fail.append((0 if lab.startswith("feature:") else 1, len(D.strict_dumps(d)), key,
+                                            {"kind": "loader", "label": lab, "input": {"doc": d}, "expected": "loads; read-back ~ document",
+                                             "observed_impl": ("raises %s: %s" % (l["exc"], l["msg"][:200])) if not l["ok"] else "read-back differs from the document"}))
+        loader_fail.sort(key=lambda x: x[:3])
+        chk.extra["loader_oracle_failures"] = len(loader_fail)
+        for _, _, key, obj in loader_fail[:8]:      # smallest documents first; a systemic defect is not reported forty times
+            add_violation(key, dict(obj, failing_documents_in_this_run=len(loader_fail)))
         # create_lsp_model
         fd = dict(feats)
         groups = [[fd["or"], fd["enumerations"]], [fd["literal"], fd["message-all-optionals"], fd["extends-mixins"]], [fd["empty"], fd["base"]],
@@ -519,10 +559,11 @@ def run(chk):
             groups.append([D.random_valid(committed, rng, feats)[1] for _ in range(rng.choice([2, 3]))])
         groups.append([fd["base"], D.invalid_edits()[0][1]])
         creates = real("create", groups=groups)
-        gl = iter(real("load", docs=[x for g in groups for x in g]))
+        gdocs = [x for g in groups for x in g]
+        gl = iter([l["ok"] and D.sim(l["readback"], x) for l, x in zip(real("load", docs=gdocs), gdocs)])
         for g, c in zip(groups, creates):
             chk.count(("create", D.strict_dumps(g)))
-            if g and all([next(gl)["ok"] for _ in g]):
+            if g and all([next(gl) for _ in g]):
                 bad = (not c["ok"]) or not D.sim(c["readback"], concat_oracle(g))
                 if bad and "merge" not in known_keys:
                     add_violation("merge", {"kind": "create", "input": {"docs": g}, "expected": "the first model extended in order by the others' declarations",
@@ -574,6 +615,9 @@ def run(chk):
             for pl in plugins:
                 jobs.append((lab, [d], pl))
         jobs.append(("invalid:second-file-missing-result", [fd["base"], dict(D.invalid_edits())["missing-result"]], "python"))
+        big = copy.deepcopy(committed)
+        del big["requests"][0]["result"]          # the committed model with one schema-required key removed
+        jobs = [(lab, [big], pl) if (lab == "invalid:missing-result" and pl != "testdata") else (lab, ds, pl) for lab, ds, pl in jobs]
         vjobs = [("valid:feature:or", [fd["or"]], "python"), ("valid:feature:enumerations", [fd["enumerations"], fd["base"]], "python")]
         with concurrent.futures.ThreadPoolExecutor(8) as ex:
             gres = list(ex.map(lambda j: run_generator(j[1], j[2]), jobs + vjobs))
@@ -612,7 +656,10 @@ def run(chk):
             codes = run_cases("s%d%s" % (chk.seed, "q" if quick else "t"), cases)
             n_corr = len(cases)
             by_stream = {}
+            covered = {D.strict_dumps(d) for (lab, d), v in zip(docs, jsvr["MetaModel"]) if v and D.pinned_ok(d)}
             for (st, lab), c, case in zip(meta, codes, cases):
+                if c == 3 and D.strict_dumps(case["doc"]) not in covered:
+                    c = 0       # read-back ~ document is only claimed for schema-valid documents
                 st0 = st.split(":")[0]
                 by_stream.setdefault(st0, [0, 0])
                 by_stream[st0][0] += 1
